@@ -76,7 +76,10 @@ func genAOF(r *Rng, tier string, idx int, rewrite bool) *Plan {
 				p.Ops = append(p.Ops, Op{Kind: "advance", N: int64(Pick(r, []int{1, 10, 500, 999, 1000, 1001, 2500, 60000}))})
 			case rewrite && r.Chance(0.15):
 				if r.Chance(0.5) {
-					p.Ops = append(p.Ops, Op{Kind: "crash", N: int64(r.Intn(16)), S: Pick(r, []string{"kill", "power"})})
+					// kill / power loss at the N-th file operation or hook of the rewrite; or (1 in 5) an I/O error there:
+					// the rewrite fails or not, the server must go on serving writes (a repairing rewrite follows at once,
+					// so that what the failed attempt left on disk stays out of this check)
+					p.Ops = append(p.Ops, Op{Kind: "crash", N: int64(r.Intn(16)), S: Pick(r, []string{"kill", "power", "kill", "power", "eio"})})
 				}
 				p.Ops = append(p.Ops, Op{Kind: "rewrite"})
 				if r.Chance(0.2) {
@@ -762,12 +765,14 @@ func (a *aofRun) runSeq() {
 				a.randKeys[fmt.Sprintf("%d/%s", db, args[1])] = true
 			}
 			mode := ""
-			if arm != nil && isIOErrMode(arm.S) && !(op.Kind == "" && len(args) == 3 && strings.HasPrefix(args[1], "fk")) {
+			if arm != nil && isIOErrMode(arm.S) && op.Kind != "rewrite" && !(op.Kind == "" && len(args) == 3 && strings.HasPrefix(args[1], "fk")) {
 				arm = nil // the dedicated write was shrunk away: no fault
 			}
 			if arm != nil {
 				mode = arm.S
-				if isIOErrMode(mode) {
+				if isIOErrMode(mode) && op.Kind == "rewrite" {
+					a.disk.Arm(int(arm.N), arm.S, "aof.")
+				} else if isIOErrMode(mode) {
 					a.disk.Arm(int(arm.N), arm.S, "aof.log.")
 				} else {
 					a.disk.Arm(int(arm.N), arm.S, "")
@@ -777,6 +782,18 @@ func (a *aofRun) runSeq() {
 			before := len(a.states) - 1
 			res := c.DoSync(args...)
 			a.disk.Disarm()
+			if a.disk.Fired && isIOErrMode(mode) && op.Kind == "rewrite" {
+				if res.Panic != "" {
+					a.fail("panic/"+topRepoFrame(res.Panic), fmt.Sprintf("%q: %s", args, res.Panic))
+					return
+				}
+				a.names = append(a.names, "rewrite-ioerr:"+mode+"@"+a.disk.FiredAt)
+				a.s.Probe("rewrite-io-error")
+				if !a.afterFailedRewrite(mode+"@"+a.disk.FiredAt, res) {
+					return
+				}
+				continue
+			}
 			if a.disk.Fired && isIOErrMode(mode) {
 				a.names = append(a.names, "ioerr:"+mode+"@"+a.disk.FiredAt)
 				if a.ioFault == "" {
@@ -846,4 +863,70 @@ func (a *aofRun) runSeq() {
 func (a *aofRun) runConc() {
 	// filled in by prop_c09.go
 	a.runConcImpl()
+}
+
+// afterFailedRewrite: REWRITEAOF met an injected I/O error (it answered res). Whatever it answered, the server
+// goes on serving writes - a write issued now is answered within the step budget - and a rewrite requested now
+// succeeds. That second rewrite replaces both files, so what the failed attempt left on disk is not examined
+// here (the crash-site findings of C09 are about exactly that).
+func (a *aofRun) afterFailedRewrite(how string, res Result) bool {
+	s := a.s
+	wasSites, wasFilter, wasPass := s.sites, s.siteFilter, s.passAll.Load()
+	s.sites, s.siteFilter = nil, nil
+	s.passAll.Store(false)
+	restore := func() {
+		s.sites, s.siteFilter = wasSites, wasFilter
+		s.passAll.Store(wasPass)
+	}
+	c := s.NewEmbeddedClient(a.inst, fmt.Sprintf("g%dprobe%d", a.gen, len(a.names)))
+	key := fmt.Sprintf("fp%d", len(a.names))
+	var pr *Result
+	c.Start([]string{"SET", key, "v"}, func(r Result) { pr = &r })
+	for step := 0; step < 3000 && pr == nil; step++ {
+		parked := s.ParkedTasks()
+		if len(parked) == 0 {
+			s.Advance(time.Millisecond)
+			s.Settle()
+			if len(s.ParkedTasks()) == 0 && step > 50 {
+				break
+			}
+			continue
+		}
+		tk, stuck := PickFair(parked, 0, 300)
+		if stuck {
+			restore()
+			a.fail("livelock/"+tk.Site+"/after-failed-rewrite", fmt.Sprintf("REWRITEAOF met an injected I/O error (%s) and answered %s; the next write command spun %d times at %s and nothing else can change the flag it waits for", how, trunc(res.String(), 60), tk.Spins, tk.Site))
+			return false
+		}
+		s.Release(tk)
+	}
+	s.DrainAll(2000)
+	restore()
+	if pr == nil {
+		a.fail("write-never-answered/after-failed-rewrite", fmt.Sprintf("REWRITEAOF met an injected I/O error (%s) and answered %s; the next write command was never answered", how, trunc(res.String(), 60)))
+		return false
+	}
+	if pr.Panic != "" {
+		a.fail("panic/"+topRepoFrame(pr.Panic), pr.Panic)
+		return false
+	}
+	rr := a.emb.DoSync("REWRITEAOF")
+	if rr.Panic != "" {
+		a.fail("panic/"+topRepoFrame(rr.Panic), rr.Panic)
+		return false
+	}
+	if rr.IsError() {
+		a.fail("rewrite-error/after-failed-rewrite", fmt.Sprintf("REWRITEAOF met an injected I/O error (%s); the next REWRITEAOF, without any fault, failed too: %s %s", how, rr.Err, rr.Reply.Str))
+		return false
+	}
+	a.rewrites++
+	a.acked++
+	a.rewriteCrashSite = ""
+	a.crashSites = nil
+	a.tainted = lossy(a.dump())
+	a.states = append(a.states, a.dump())
+	if a.p.SK("sync") == "always" || a.disk.PendingOps("aof/log.aof") == 0 {
+		a.syncedUp = len(a.states) - 1
+	}
+	return true
 }
